@@ -19,11 +19,23 @@ func TestVerifDisplay(t *testing.T) {
 	r := rand.New(rand.NewSource(res.Seed))
 	start := time.UnixMilli(1683979200000).UTC()
 	n := res.n(16, 150)
+	rp := vReplay("display")
+	if rp != nil {
+		n = 1
+	}
 	for i := 0; i < n; i++ {
 		bs, frames := vStream(r, res.n(40, 200))
 		delay := []time.Duration{time.Millisecond, 5 * time.Millisecond, 20 * time.Millisecond}[r.Intn(3)]
+		chunk := 1 + r.Intn(9)
+		if rp != nil {
+			bs = vUnhx(rp["stream"])
+			frames = vFramesOf(start, bs)
+			delay, _ = time.ParseDuration(rp["delay"])
+			chunk = vInts(rp["chunks"])[0]
+		}
 		var cfg jsonconfig.Config
-		vMark(fmt.Sprintf("display delay=%v stream=%s", delay, vhx(bs)))
+		op := fmt.Sprintf("display delay=%v chunks=%d,4096 stream=%s", delay, chunk, vhx(bs))
+		vMark(op)
 		// reference: instant writer, read after quiescence
 		refW := &slowWriter{}
 		HandleMessages(start, &chunked{data: append([]byte{}, bs...), chunks: []int{4096}}, refW, &cfg)
@@ -40,7 +52,7 @@ func TestVerifDisplay(t *testing.T) {
 			done := make(chan struct{})
 			go func() {
 				defer close(done)
-				HandleMessages(start, &chunked{data: append([]byte{}, bs...), chunks: []int{1 + r.Intn(9), 4096}}, w, &cfg)
+				HandleMessages(start, &chunked{data: append([]byte{}, bs...), chunks: []int{chunk, 4096}}, w, &cfg)
 			}()
 			select {
 			case <-done:
@@ -57,7 +69,7 @@ func TestVerifDisplay(t *testing.T) {
 		if failure != "" {
 			outcome = "fail"
 		}
-		res.record(fmt.Sprintf("latency=%v", delay), fmt.Sprintf("display delay=%v stream=%s", delay, vhx(bs)), outcome, len(frames) > 0 || len(bs) > 0, failure)
+		res.record(fmt.Sprintf("latency=%v", delay), op, outcome, len(frames) > 0 || len(bs) > 0, failure)
 	}
 	res.write(t0)
 }
